@@ -177,4 +177,34 @@ ok = ok and note("caller's document unchanged", tx(doc) == before)
 return ok
 """
     out.append(mk_case("c15.cast.str_subclass", [("u1", UN), ("t", "int")], body, pre=[f"BU({L}, u1, t)"], stubs=["sym_repr"]))
+    # nested containers that are dict / list subclasses: the cast data is the document with the replacements, type-exactly
+    # (subclass containers stay what they are), and shares no container with the caller's document
+    body = """
+import collections, copy
+class Seq(list):
+    pass
+doc = {'opts': collections.OrderedDict([('verbose', 'true'), ('level', '3'), ('name', 'x')]), 'tags': Seq(['1', 'two', '3', u1]),
+       'dd': collections.defaultdict(list, {'k': ['7', u1]}), 'plain': {'k': ['7']}}
+before = tx(doc)
+rules = [Rule(('opts', 'verbose'), Value.equal_to(True), cast={str: valida.casting.cast_string_to_bool}),
+         Rule(('opts', 'level'), Value.greater_than(t), cast={str: int}),
+         Rule(('tags', ListValue()), Value.is_instance(int, str), cast={str: int}),
+         Rule(('dd', 'k', 0), Value.equal_to(7), cast={str: int})]
+exp = copy.deepcopy(doc)
+exp['opts']['verbose'] = True
+exp['opts']['level'] = 3
+exp['tags'][0] = 1
+exp['tags'][2] = 3
+exp['dd']['k'][0] = 7
+v = Schema(rules).validate(doc)
+ok = same('cast data, type-exactly (container types included)', tx(v.cast_data), tx(exp))
+ok = ok and note('private copy', disjoint_containers(v.cast_data, doc)) and note("caller's document unchanged", tx(doc) == before)
+t1 = rules[2].test(doc)
+exp1 = copy.deepcopy(doc)
+exp1['tags'][0] = 1
+exp1['tags'][2] = 3
+ok = ok and same('Rule.test data, type-exactly', tx(t1.data.get_original()), tx(exp1))
+return ok
+"""
+    out.append(mk_case("c15.cast.container_subclasses", [("u1", UN), ("t", "int")], body, pre=[f"BU({L}, u1, t)"], stubs=["sym_repr"]))
     return out
